@@ -57,6 +57,8 @@ type cTx struct {
 	Rcpts     []string
 	Ending    int
 	CutInBody bool // endDisconnectMidData: where the connection breaks
+	NoReset   bool // no accepted recipient: go on with the next MAIL without DATA/RSET
+	Pause     bool // the client idles 6 s (longer than the limit time-out) before the body
 	Chunks    int  // 0: DATA; n>0: BDAT in n chunks
 	BdatEnd   int
 	Payload   []byte
@@ -209,9 +211,13 @@ func (w *world) build() error {
 	} else {
 		cfg = append(cfg, node("defer_sender_reject", "no"))
 	}
-	w.limScope = []string{"all", "source", "ip"}[s.T.Choose(st, 3)]
+	w.limScope = []string{"all", "source", "ip", "ip+source"}[s.T.Choose(st, 4)]
 	if w.limitN > 0 {
-		cfg = append(cfg, block("limits", nil, node(w.limScope, "concurrency", fmt.Sprint(w.limitN))))
+		var ln []config.Node
+		for _, sc := range strings.Split(w.limScope, "+") {
+			ln = append(ln, node(sc, "concurrency", fmt.Sprint(w.limitN)))
+		}
+		cfg = append(cfg, block("limits", nil, ln...))
 	}
 	if len(checkNodes) > 0 {
 		cfg = append(cfg, block("check", nil, checkNodes...))
@@ -343,6 +349,8 @@ func (w *world) genClients() {
 				tx.Ending = s.T.Choose(st, nEndings)
 			}
 			tx.CutInBody = s.T.Choose(st, 2) == 1
+			tx.NoReset = s.T.Choose(st, 3) == 0
+			tx.Pause = s.T.Choose(st, 6) == 0
 			if s.T.Choose(st, 3) == 0 {
 				tx.Chunks = 1 + s.T.Choose(st, 3)
 				tx.BdatEnd = []int{bdatComplete, bdatComplete, bdatComplete, bdatZeroLast, bdatDataMid, bdatRset, bdatDisconnect, bdatQuit}[s.T.Choose(st, 8)]
@@ -432,6 +440,17 @@ func (w *world) runClient(c *client) {
 			if rr.OK() {
 				anyRcpt = true
 			}
+		}
+		if !anyRcpt && tx.NoReset {
+			// nothing was accepted: some clients simply start over
+			s.Stat("client_next_mail_without_reset")
+			tx.Done = true
+			continue
+		}
+		if tx.Pause {
+			s.Stat("client_pause_mid_transaction")
+			time.Sleep(6 * time.Second)
+			simrt.Yield("client:paused")
 		}
 		// (without an accepted recipient go-smtp refuses BDAT before reading the
 		// chunk, which a pipelining client cannot recover from: use DATA there)
@@ -950,6 +969,12 @@ func (w *world) oracleC16() {
 				desynced = true
 			}
 			check("MAIL", tx.UTF8, tx.MailReply)
+			if !tx.MailReply.OK() {
+				// the commands that follow a refused MAIL land in whatever
+				// transaction the server still has open (or in none): their
+				// replies are not formatted for this transaction's options
+				continue
+			}
 			for _, rr := range tx.RcptReplies {
 				check("RCPT", tx.UTF8, rr)
 			}
